@@ -11,8 +11,8 @@ CONSTANTS
   RetryCount = 2
   MaxCrash = 1
   AllowWindow = FALSE
-  StartStates = {"empty", "data+ownsnap"}
-  OtherAtStart = {FALSE}
+  StartStates = {"empty", "data", "ownsnap", "data+ownsnap"}
+  OtherAtStart = {TRUE, FALSE}
   OnlyOnce = FALSE
 SPECIFICATION Spec
 INVARIANTS TypeOK NoLocalLoss PublishedWhenIdle ReadyMeansLoaded ReadyMeansPublished ExitOnlyWhenDone
